@@ -210,7 +210,12 @@ def encoding_chain(ctx: Ctx) -> None:
     # open(): explicit encoding becomes the single tried encoding
     fo = p.func(OPEN)
     lo = locals_of(fo)
-    bs = lo.b.get("try_encodings", [])
+    oc2_ = [c for c in calls(fo) if callee_name(ctx, fo, c) == OWDE]
+    te_arg = None
+    if len(oc2_) == 1:
+        te_arg = {k.arg: k.value for k in oc2_[0].keywords}.get("try_encodings")
+    te_name = te_arg.id if isinstance(te_arg, ast.Name) else "try_encodings"
+    bs = lo.b.get(te_name, [])
     shapes = []
     for b in bs:
         v = b.value
@@ -228,7 +233,7 @@ def encoding_chain(ctx: Ctx) -> None:
     oc2 = [c for c in calls(fo) if callee_name(ctx, fo, c) == OWDE]
     c2 = one(oc2, f"call of open_with_detected_encoding in {OPEN}")
     kw2 = {k.arg: k.value for k in c2.keywords}
-    ctx.expect("R-FWD", fo, "open() passes its try_encodings on", isinstance(kw2.get("try_encodings"), ast.Name) and kw2["try_encodings"].id == "try_encodings", "",
+    ctx.expect("R-FWD", fo, "open() passes its try_encodings on", isinstance(kw2.get("try_encodings"), ast.Name) and kw2["try_encodings"].id == te_name and bool(bs), "",
                f"try_encodings= is {src(kw2['try_encodings']) if 'try_encodings' in kw2 else 'absent'}", node=c2)
     ctx.expect("R-FWD", fo, "open() opens the caller's filename", bool(c2.args) and isinstance(c2.args[0], ast.Name) and c2.args[0].id == "filename", "", "", node=c2)
     rr = [r for r in body_walk(fo.node) if isinstance(r, ast.Return)]
